@@ -145,17 +145,17 @@ def _replay_sampling(order, shape, corner_safe, quat=None):
         g = lambda k, d=0.0: fl(cex.get(k, d))  # noqa: E731
         scale = g("scale", 1.0) or 1.0
         size = [int(frac(cex.get(f"n{i}", 24))) for i in range(3)]
-        size = [min(max(s, 1), 96) for s in size]
+        if max(size) > 160 or min(size) < 1:
+            return None, {"error": "counterexample tomogram too large to replay", "size": size}
         pos = np.array([g(f"p{i}") for i in range(3)], dtype=np.float64)
         shp = tuple(int(frac(cex.get(f"s{i}", shape[i] if shape else 3))) for i in range(3))
         if quat is not None:
             rot = Rotation.from_quat([float(c) for c in quat])
         else:
             m = np.array([[g(f"r{i}{j}", 1.0 if i == j else 0.0) for j in range(3)] for i in range(3)])
-            try:
-                rot = Rotation.from_matrix(m[None])
-            except Exception:
-                rot = Rotation.identity(1)
+            if not (np.allclose(m @ m.T, np.eye(3), atol=1e-9) and np.linalg.det(m) > 0):
+                return None, {"error": "counterexample matrix is not a rotation; cannot be passed to the public API", "matrix": m.tolist()}
+            rot = Rotation.from_matrix(m[None])
         if rot.single:
             rot = Rotation.from_quat(rot.as_quat()[None])
         zz, yy, xx = np.indices(size).astype(np.float64)
@@ -174,7 +174,8 @@ def _replay_sampling(order, shape, corner_safe, quat=None):
         worst = 0.0
         for o in itertools.product(*[range(s) for s in shp]):
             coord = pos / scale + R @ (np.array(o) - ctr)
-            if np.all(coord >= 2) and np.all(coord <= np.array(size) - 3):
+            mg = {0: 0.5, 1: 1.0, 3: 3.0}[order]
+            if np.all(coord >= mg) and np.all(coord <= np.array(size) - 1 - mg):
                 if order == 0:
                     if np.any(np.abs(coord - np.floor(coord) - 0.5) < 1e-3):
                         continue  # tie of nearest-neighbour rounding
@@ -238,6 +239,17 @@ def sec_sampling(rec, order=1, corner_safe=False, patches=None, free_axis=None, 
     tag = f"sampling[order={order},cs={int(corner_safe)}" + (f",axis={free_axis}" if free_axis is not None else "") + (
         f",shape={tuple(shape)}" if shape else "") + (f",q={[str(x) for x in quat]}" if quat is not None else "") + "]"
     rp = _replay_sampling(order, shape, corner_safe, quat)
+    small = [z3.And(s.e >= 12, s.e <= 40) for s in size] + [z3.And(pp.e >= -60, pp.e <= 100) for pp in pos] + [scale.e >= z3.RealVal("1/4"), scale.e <= 4]
+    if shape is None:
+        small += [s.e <= 6 for s in shp]
+    if quat is None:
+        ident = [Rz[i2][j] == (1 if i2 == j else 0) for i2 in range(3) for j in range(3)]
+        rot90 = [Rz[0][0] == 1, Rz[0][1] == 0, Rz[0][2] == 0, Rz[1][0] == 0, Rz[1][1] == 0, Rz[1][2] == -1, Rz[2][0] == 0, Rz[2][1] == 1, Rz[2][2] == 0]
+        prefer = [small + ident, small + rot90, ident, rot90]
+    else:
+        prefer = [small]
+    _q0 = rec.query
+    rec_query = lambda *a, **k: _q0(*a, prefer=prefer, **k)  # noqa: E731
     n_ok = 0
     for i, p in enumerate(paths):
         h = hyps + [p.condition()]
@@ -246,7 +258,7 @@ def sec_sampling(rec, order=1, corner_safe=False, patches=None, free_axis=None, 
                 rec.error(f"{tag}/path{i}", f"unexpected exception {type(p.exc).__name__}: {p.exc}")
                 continue
             sl, sz = p.exc.slice, p.exc.size
-            rec.query(f"{tag}/path{i}/raises=>no-overlap", h, z3.Or(zi(sl.stop) <= 0, zi(sl.start) >= zi(sz)),
+            rec_query(f"{tag}/path{i}/raises=>no-overlap", h, z3.Or(zi(sl.stop) <= 0, zi(sl.start) >= zi(sz)),
                       key="C02/sampling/overlapping-window-rejected", names=names, replay=rp)
             continue
         n_ok += 1
@@ -257,7 +269,7 @@ def sec_sampling(rec, order=1, corner_safe=False, patches=None, free_axis=None, 
         # side obligations recorded by the stubs on this path (slices inside the array, no zero division)
         for (lab, cond, npc, ndef) in p.obligations:
             if lab in ("slice-in-range", "div0"):
-                rec.query(f"{tag}/path{i}/{lab}", hyps + [p.cond_at(npc, ndef)], cond, key=f"C02/sampling/{lab}", names=names, replay=rp)
+                rec_query(f"{tag}/path{i}/{lab}", hyps + [p.cond_at(npc, ndef)], cond, key=f"C02/sampling/{lab}", names=names, replay=rp)
         M = r.matrix
         src = r.src
         block, padmode = _prepad(src)
@@ -266,9 +278,9 @@ def sec_sampling(rec, order=1, corner_safe=False, patches=None, free_axis=None, 
             local = zsum_row(M, a, o)
             tomo = local + _real(zi(src.origin[a]))
             want = c[a] + sum((Rz[a][j] * (o[j] - (_real(zi(shp[j])) - 1) / 2) for j in range(3)), z3.RealVal(0))
-            rec.query(f"{tag}/path{i}/rule-axis{a}", h, tomo == want, key="C02/sampling/rule", names=names, replay=rp)
+            rec_query(f"{tag}/path{i}/rule-axis{a}", h, tomo == want, key="C02/sampling/rule", names=names, replay=rp)
         # affine part of the matrix: last row (0,0,0,1)
-        rec.query(f"{tag}/path{i}/homogeneous-row", h, z3.And(*[_real(zi(M[3, j])) == (1 if j == 3 else 0) for j in range(4)]),
+        rec_query(f"{tag}/path{i}/homogeneous-row", h, z3.And(*[_real(zi(M[3, j])) == (1 if j == 3 else 0) for j in range(4)]),
                   key="C02/sampling/matrix-last-row", names=names, replay=rp)
         # plumbing of the interpolation call
         plumb = (tuple(r.output_shape) == tuple(shp) or all(z3.eq(z3.simplify(zi(x)), z3.simplify(zi(y))) for x, y in zip(r.output_shape, shp))) \
@@ -279,13 +291,13 @@ def sec_sampling(rec, order=1, corner_safe=False, patches=None, free_axis=None, 
         if padmode is not None and padmode != "mean":
             rec.fact(f"{tag}/path{i}/pad-mode", False, key="C02/sampling/pad-mode", detail={"mode": padmode})
         # (d) a window that is accepted overlaps the tomogram: cropped block non-empty on every axis => finite fill
-        rec.query(f"{tag}/path{i}/accepted=>non-empty-block", h, z3.And(*[zi(block.shape[a]) >= 1 for a in range(3)]),
+        rec_query(f"{tag}/path{i}/accepted=>non-empty-block", h, z3.And(*[zi(block.shape[a]) >= 1 for a in range(3)]),
                   key="C02/slicepad/abutting-window-not-rejected", names=names, replay=rp)
         # local array covers the declared window: valid data where the tomogram has data
         for a in range(3):
             lo, hi = src.valid[a]
             org = zi(src.origin[a])
-            rec.query(f"{tag}/path{i}/valid-region-axis{a}", h,
+            rec_query(f"{tag}/path{i}/valid-region-axis{a}", h,
                       z3.And(zi(lo) + org == z3.If(org > 0, org, 0), zi(hi) + org == z3.If(org + zi(src.shape[a]) < size[a].e, org + zi(src.shape[a]), size[a].e)),
                       key="C02/sampling/valid-region", names=names, replay=rp)
         # (b) coverage: every sample point plus the spline support lies inside the local array
@@ -299,7 +311,7 @@ def sec_sampling(rec, order=1, corner_safe=False, patches=None, free_axis=None, 
         for a in range(3):
             local = zsum_row(M, a, o)
             Lz = _real(zi(src.shape[a]))
-            rec.query(f"{tag}/path{i}/window-covers-axis{a}", cover_h + obox,
+            rec_query(f"{tag}/path{i}/window-covers-axis{a}", cover_h + obox,
                       z3.And(local >= need_lo, local <= Lz - 1 - need_hi), key="C02/sampling/window-coverage", names=names, replay=rp)
     rec.extra[tag] = {"paths": len(paths), "accepted": n_ok}
 
